@@ -647,7 +647,20 @@ Error Message: {}
                 blob = self._get_session_blob(
                     key, service, username, algorithm
                 )
-                if not key.verify_ssh_sig(blob, sig):
+                # The signature must use the algorithm named in the request
+                # (key classes verify any algorithm/curve they know).
+                expected = algorithm.replace("-cert-v01@openssh.com", "")
+                sig_algorithm = sig.get_string()
+                sig.rewind()
+                if sig_algorithm != b(expected):
+                    self._log(
+                        INFO,
+                        "Auth rejected: signature algorithm does not match requested algorithm {}".format(  # noqa
+                            algorithm
+                        ),
+                    )
+                    result = AUTH_FAILED
+                elif not key.verify_ssh_sig(blob, sig):
                     self._log(INFO, "Auth rejected: invalid signature")
                     result = AUTH_FAILED
         elif method == "keyboard-interactive":
